@@ -25,7 +25,7 @@ CHECKS = {
              "specialisation): fallback lookup is total and terminates (acyclic dependency graph); the PostScript sanitiser's tests "
              "provably apply to the appended character (propositional entailment over the guards, stable reaching definitions); every CFF "
              "string sink is fed through the reducer (4 listed known findings); the VF info override forwards every info-derived field; "
-             "every UFO3 fontinfo attribute is consumed or reviewed-unused. the object getAttrWithFallback returns is never modified in place; info values are compared with None, never tested by truthiness (reviewed string / list exceptions). Field values are not decided.",
+             "every UFO3 fontinfo attribute is consumed or reviewed-unused. the object getAttrWithFallback returns is never modified in place; info values are compared with None, never tested by truthiness (reviewed string / list exceptions); styleMapStyleName is translated to the fsSelection / macStyle bits the OpenType spec assigns and the two tables agree. Other field values are not decided.",
         design_ref="DESIGN.md §5 C16", note=STATIC_NOTE,
         technique="static analysis: constant propagation, fallback call-graph cycle check, value-flow sanitiser rule, taint of info-derived fields"),
     "C13": dict(
@@ -130,7 +130,7 @@ CHECKS = {
              "or is on a reviewed list, sibling option tables agree; filters are merged only when class, options and pre agree; master "
              "TTFs keep float coordinates and implied on-curves; sparse table sets are subsets of the compilers' tables chosen by "
              "layerName, placeholders only for missing component bases of non-default masters with the 0xFFFF sentinel; every I-filter "
-             "loops over all masters without early exit; location closure for decomposed components. Point compatibility of the output "
+             "loops over all masters without early exit; location closure for decomposed components; the instantiator's cached glyph models are dropped after every modifying step; interpolatable OTF masters are forced to CFFOptimization.NONE. Point compatibility of the output "
              "and cu2qu's joint segment counts (fontTools) are not decided.",
         design_ref="DESIGN.md §5 C09", note=STATIC_NOTE,
         technique="static analysis: dominance/ordering rules on the pipeline, sibling agreement over class tables, constant evaluation of table sets, loop-shape rules, guard facts"),
@@ -161,7 +161,7 @@ CHECKS = {
              "drawn through the decomposing pen then removed; 'transformed' = 2x2 differs from fontTools' identity, both siblings "
              "decompose iff some component is transformed; nested transformations composed as outer o inner (shared with C02); anchor "
              "propagation only appends entries of to_add, an entry is created only when no existing anchor starts with the name, mark "
-             "adjustment only rewrites existing entries, each position is the base anchor mapped through its own component's "
+             "adjustment only rewrites existing entries, base and mark components partition the components, each position is the base anchor mapped through its own component's "
              "transformation; transformations filter transforms included bases before replaying the composite, compensates components "
              "of transformed bases with the inverse on the inner side, maps every anchor as a point and the advance as a vector, and "
              "builds its matrix in the documented order. components only resolved by util.decomposeCompositeGlyph (no second decomposer). Affine arithmetic and rendering equality are not decided.",
@@ -184,7 +184,7 @@ CHECKS = {
              "requested location's key, else model.interpolateFromMasters(location, masters), with masters / locations / key table "
              "filled pairwise; every store of default-source data into the instance is a fresh copy (deepcopy / comprehension / list), "
              "reviewed scalar exceptions; swap_glyph_names exchanges outlines, widths and anchors through a temporary with destinations "
-             "cleared, remaps components, both kerning sides and group members in both directions, never assigns code points, and is "
+             "cleared, remaps components, both kerning sides and group members in both directions, drops the old kerning pairs before writing the remapped ones, never assigns code points, and is "
              "only applied to the freshly created instance font; the instance has one new glyph per name of the default source; "
              "master collection skips only non-default sparse layers, kerning groups from the default, default layer must hold every "
              "glyph; otRound installed as fontMath's rounding, .round() only under round_geometry with in-place / returning forms read "
